@@ -21,6 +21,17 @@ def run(ctx):
         ctx.extra["tlaps_fill_algebra_all_integers"] = {"obligations_proved": int(m.group(1))} if m else {"not_proved": out[-300:]}
     except Exception as e:
         ctx.extra["tlaps_fill_algebra_all_integers"] = {"unavailable": str(e)[:200]}
+    # Layer 2: AddPaths_ vertex flagging - design-level model (scan = declarative definition, alternation; cyclic => start-vertex independent)
+    lm = core.tlc_ok(core.tlc("LocalMinima", "LocalMinima.cfg", workers=8, timeout=600), "LocalMinima"); ctx.add_tlc(lm)
+    # ... bound to the code by hook H3 (vertex flags of every processed path); divergences are engine-level: recorded, they direct the search
+    vexe = core.build("plain", ("vatti",)); vf = ctx.path("verts.ndjson")
+    pv = core.sh([vexe, "verts", "--seed", str(s), "--n", "1500" if q else "12000", "--out", vf], timeout=600)
+    if pv.returncode != 0:
+        raise core.ModelFailure("harness verts failed: " + pv.stderr.decode(errors="replace")[-500:])
+    for f, r in core.validate_traces("LocalMinimaTrace", "LocalMinimaTrace.cfg", [vf]):
+        ctx.add_tlc(r)
+        ctx.extra["vertex_flag_lists_validated"] = core.count_lines(f)
+        ctx.extra["engine_divergences_local_minima"] = sorted({fl["clause"] for fl in r.fails})
     jobs = []
     for k in range(12 if q else 32):
         jobs.append({"variant": "plain" if k % 2 == 0 else "hi", "args": {"seed": s * 1000 + k, "n": 5 if q else 25, "R": 32, "ncomp": 6 if q else 14, "npts": 100}, "out": ctx.path("repr_%02d.ndjson" % k)})
